@@ -306,6 +306,17 @@ class ErrB(Exception):
 ERRS = {"ErrA": ErrA, "ErrB": ErrB}
 
 
+def from_js_x(j):
+    """ser.from_js, plus (top level only) a numpy object array whose entries are expressions: ["objarr", [e, ...]]"""
+    if isinstance(j, list) and j and j[0] == "objarr":
+        import numpy as np
+        arr = np.empty(len(j[1]), dtype=object)
+        for i, x in enumerate(j[1]):
+            arr[i] = ser.from_js(x)
+        return arr
+    return ser.from_js(j)
+
+
 def build_stmt(kind, cond, sid="s", deps=()):
     """real statement object from the JSON form"""
     import dagrt.language as lang
@@ -315,20 +326,21 @@ def build_stmt(kind, cond, sid="s", deps=()):
     if k == "assign":
         _, lhs, sub, rhs, loops = kind
         return lang.Assign(assignee=lhs, assignee_subscript=(ser.from_js(sub),) if sub is not None else (),
-                           expression=ser.from_js(rhs),
+                           expression=from_js_x(rhs),
                            loops=[(i, ser.from_js(lo), ser.from_js(hi)) for i, lo, hi in loops],
                            condition=c, **common)
     if k == "call":
         _, lhs, f, args, kw = kind
         return lang.AssignFunctionCall(assignees=tuple(lhs), function_id=f,
-                                       parameters=tuple(ser.from_js(a) for a in args),
+                                       parameters=tuple(from_js_x(a) for a in args),
                                        kw_parameters={kk: ser.from_js(v) for kk, v in kw}, condition=c, **common)
     if k == "yield":
         _, e, t, tid, comp = kind
-        return lang.YieldState(expression=ser.from_js(e), time=ser.from_js(t), time_id=tid, component_id=comp,
+        return lang.YieldState(expression=from_js_x(e), time=ser.from_js(t), time_id=tid, component_id=comp,
                                condition=c, **common)
     if k == "raise":
-        return lang.Raise(ERRS[kind[1]], "msg", condition=c, **common)
+        # ["raise", E, "nomsg"]: no message given (the default of Raise and of CodeBuilder.raise_)
+        return lang.Raise(ERRS[kind[1]], None if kind[2:] == ["nomsg"] else "msg", condition=c, **common)
     if k == "fail":
         return lang.FailStep(condition=c, **common)
     if k == "switch":
